@@ -614,6 +614,89 @@ theorem cmp_iff_Inverts (ops : List CmpOp) (known : List (Option Val)) (v : Val)
     · intro h; simp at h
     · rintro ⟨h, _⟩; exact absurd h hlen
 
+/-! ### A multi-slot comparison takes exactly as many items as it has slots
+
+`ComparisonOperator::destructure` hands the items of the value to the open slots in order; it raises
+"ran out of ok rvalues" when an open slot finds no item and "too many rvalues" when an item is left
+over.  `fillSlots` is that loop; these are its two length facts. -/
+
+theorem fillSlots_length_exact : ∀ (known : List (Option Val)) (rvs parts : List Val),
+    fillSlots known rvs = some parts →
+      rvs.length = (known.filter Option.isNone).length ∧ parts.length = known.length
+  | [], [], parts, h => by simp [fillSlots] at h; subst h; simp
+  | [], _ :: _, parts, h => by simp [fillSlots] at h
+  | some x :: lhs, rvs, parts, h => by
+      simp only [fillSlots, Option.map_eq_some_iff] at h
+      obtain ⟨ps, hps, rfl⟩ := h
+      have := fillSlots_length_exact lhs rvs ps hps
+      simp [this.1, this.2]
+  | none :: _, [], parts, h => by simp [fillSlots] at h
+  | none :: lhs, r :: rvs, parts, h => by
+      simp only [fillSlots, Option.map_eq_some_iff] at h
+      obtain ⟨ps, hps, rfl⟩ := h
+      have := fillSlots_length_exact lhs rvs ps hps
+      simp [this.1, this.2]
+
+/-- Surplus items are refused whatever the layout of literals and slots. -/
+theorem fillSlots_surplus (known : List (Option Val)) (rvs : List Val)
+    (h : (known.filter Option.isNone).length < rvs.length) : fillSlots known rvs = none := by
+  cases hf : fillSlots known rvs with
+  | none => rfl
+  | some parts => have := (fillSlots_length_exact known rvs parts hf).1; omega
+
+/-- Missing items are refused too. -/
+theorem fillSlots_short (known : List (Option Val)) (rvs : List Val)
+    (h : rvs.length < (known.filter Option.isNone).length) : fillSlots known rvs = none := by
+  cases hf : fillSlots known rvs with
+  | none => rfl
+  | some parts => have := (fillSlots_length_exact known rvs parts hf).1; omega
+
+/-- The specification side of the same fact: a comparison pattern with several open slots is
+inverted only by a sequence with exactly that many items. -/
+theorem Inverts_cmp_length_exact (ops : List CmpOp) (known : List (Option Val)) (v : Val)
+    (parts : List Val) (h : Inverts (.cmp ops) known v parts)
+    (hs : (known.filter Option.isNone).length ≠ 1) :
+    ∃ rvs, seqItems v = some rvs ∧ rvs.length = (known.filter Option.isNone).length ∧
+      parts.length = known.length := by
+  simp only [Inverts] at h
+  obtain ⟨_, rvs, hr, hf, _⟩ := h
+  simp only [hs, if_false] at hr
+  have := fillSlots_length_exact known rvs parts hf
+  exact ⟨rvs, hr.2, this.1, this.2⟩
+
+/-- **`comparison_destructure_length_exact`**: when `ComparisonOperator::destructure` accepts a value
+for a pattern with several open slots, the value is a sequence whose number of items EQUALS the
+number of open slots (neither fewer nor more), and every operand position receives a value.  (With one
+open slot the whole value goes to that slot and is not unpacked.) -/
+theorem comparison_destructure_length_exact (ops : List CmpOp) (known : List (Option Val)) (v : Val)
+    (parts : List Val) (h : destructure (.cmp ops) v known = .ok parts)
+    (hs : (known.filter Option.isNone).length ≠ 1) :
+    ∃ rvs, seqItems v = some rvs ∧ rvs.length = (known.filter Option.isNone).length ∧
+      parts.length = known.length :=
+  Inverts_cmp_length_exact ops known v parts ((cmp_iff_Inverts ops known v parts).1 h) hs
+
+/-- Contrapositive, as the interpreter reports it: a sequence that is too long (or too short) for a
+multi-slot comparison pattern is never accepted. -/
+theorem comparison_destructure_wrong_length (ops : List CmpOp) (known : List (Option Val)) (v : Val)
+    (rvs : List Val) (hv : seqItems v = some rvs)
+    (hs : (known.filter Option.isNone).length ≠ 1)
+    (hne : rvs.length ≠ (known.filter Option.isNone).length) (parts : List Val) :
+    destructure (.cmp ops) v known ≠ .ok parts := by
+  intro h
+  obtain ⟨rvs', hv', hl, _⟩ := comparison_destructure_length_exact ops known v parts h hs
+  rw [hv] at hv'; cases hv'; exact hne hl
+
+/-- `a < b := [1, 2, 3]` raises; `a < b < c := [1, 2, 3]` binds all three. -/
+example : (destructure (.cmp [.lt]) (.list [.int 1, .int 2, .int 3]) [none, none]) matches .throw := by
+  decide +kernel
+example : (destructure (.cmp [.lt, .lt]) (.list [.int 1, .int 2, .int 3]) [none, none, none])
+    matches .ok [.int 1, .int 2, .int 3] := by decide +kernel
+example : (destructure (.cmp [.lt, .lt]) (.list [.int 1, .int 9, .int 10]) [none, some (.int 5), none])
+    matches .throw := by decide +kernel
+/-- the same through `assign`: declaring `a < b := [1, 2, 3]` raises and binds nothing -/
+example : (assign [[]] (.destr (.cmp [.lt]) [.ident 0 [], .ident 1 []]) (some .any)
+    (.list [.int 1, .int 2, .int 3])).2 matches .throw := by decide +kernel
+
 /-- **`destructure_iff_Inverts`**: every destructuring builtin computes exactly the inverse image
 `Inverts` of its constructor — sound and complete, for every value and every literal/open-slot
 layout (numbers are exact; float operands are outside the model and refused on both sides). -/
